@@ -270,6 +270,27 @@ pub fn c05(tier: Tier) -> Vec<Case> {
             b.add_variant(grp, vi, "memo-subsets/long-inputs", with_memo(&g, &names, mask), spec.clone(), &format!("mask{mask}"));
         }
     }
+    // more than 64 memoized rules in one grammar (count boundaries of per-grammar bookkeeping)
+    {
+        let n = 70usize;
+        let mut rules = vec![Rule::normal("Root", vec![Directive::Export, Directive::NoSkipWs], seq(vec![field("k", "K"), opt(field("t", "K")), Expr::Eoi]))];
+        rules.push(Rule::normal("K", vec![Directive::NoSkipWs], choice((0..n).map(|i| over(&format!("K{i:02}"))).collect())));
+        for i in 0..n {
+            rules.push(Rule::normal(&format!("K{i:02}"), vec![Directive::NoSkipWs, Directive::String], lit(&format!("k{i:02}"))));
+        }
+        let g = Grammar { rules };
+        let names: Vec<String> = (0..n).map(|i| format!("K{i:02}")).collect();
+        let inputs: Vec<String> = ["k00", "k01", "k63", "k64", "k65", "k69", "k7", "k64k00", "k00k64", "k65k01", "k6"].iter().map(|s| s.to_string()).collect();
+        let grp = b.new_group();
+        b.add_variant(grp, 0, "memo-subsets/many-rules", g.clone(), InputSpec::List(inputs.clone()), "mask0");
+        let mut all = g.clone();
+        for r in &mut all.rules {
+            if names.contains(&r.name) {
+                r.directives.insert(0, Directive::Memoize);
+            }
+        }
+        b.add_variant(grp, 1, "memo-subsets/many-rules", all, InputSpec::List(inputs.clone()), "mask-all");
+    }
     // a memoized rule (whose tree holds a @string rule) evaluated first inside the body of another @string rule and then,
     // at the same offset, from an ordinary field
     {
@@ -610,6 +631,22 @@ pub fn c07(tier: Tier) -> Vec<Case> {
         if wf::well_formed(&g) && b.add("leftrec/long-inputs", g, InputSpec::List(inputs)) {
             b.last().note = "recursive-first".into();
         }
+        // two left-recursive rules evaluated at one position, the inner one reached before the outer rule's own
+        // recursive reference (an alternative with a shared prefix / a lookahead in front)
+        let inputs = InputSpec::Strings { alphabet: vec!['n', '+', '*', '!'], max_len: if tier == Tier::Quick { 6 } else { 7 } };
+        for first in [seq(vec![field("m", "T"), lit("!")]), seq(vec![not(seq(vec![rref("T"), lit("!")])), bfield("l", "E"), lit("+"), field("r", "T")])] {
+            let g = Grammar {
+                rules: vec![
+                    Rule::normal("Root", vec![Directive::Export, Directive::NoSkipWs], seq(vec![field("e", "E"), Expr::Eoi])),
+                    Rule::normal("E", vec![Directive::Leftrec, Directive::NoSkipWs], choice(vec![first.clone(), seq(vec![bfield("l", "E"), lit("+"), field("r", "T")]), field("t", "T")])),
+                    Rule::normal("T", vec![Directive::Leftrec, Directive::NoSkipWs], choice(vec![seq(vec![bfield("l", "T"), lit("*"), field("r", "N")]), field("n", "N")])),
+                    n_rule(),
+                ],
+            };
+            if wf::well_formed(&g) && b.add("leftrec/two-rules-one-position", g, inputs.clone()) {
+                b.last().note = "base-first".into();
+            }
+        }
     }
     // (a3) recursive alternatives that share a prefix containing a nested reference to the rule itself
     {
@@ -876,6 +913,8 @@ pub fn c13(tier: Tier) -> Vec<Case> {
         ("optional-seq", opt(seq(vec![lit("c"), field("g", "X"), lit("c")]))),
         ("optional-tokens", opt(seq(vec![lit("c"), lit("b"), lit("b")]))),
         ("closure-only", star(field("g", "X"))),
+        // a rule that only forwards to a rule whose first alternative is a lone include
+        ("forward", inc("Fwd")),
     ];
     let inc_dirs: Vec<(&str, Vec<Directive>)> = vec![
         ("plain", vec![]),
@@ -895,6 +934,9 @@ pub fn c13(tier: Tier) -> Vec<Case> {
                             Rule::normal("X", vec![Directive::String, Directive::NoSkipWs], seq(vec![lit("b"), opt(lit("b"))])),
                             Rule::normal("Y", vec![Directive::String, Directive::NoSkipWs], lit("c")),
                             Rule::normal("Inc2", vec![], seq(vec![field("k", "X")])),
+                            Rule::normal("Fwd", vec![], inc("Inner")),
+                            Rule::normal("Inner", vec![], choice(vec![inc("Leaf"), field("k", "X")])),
+                            Rule::normal("Leaf", vec![], field("l", "Y")),
                         ];
                         if with_inc {
                             v.push(Rule::normal("Inc", idirs.clone(), body.clone()));
@@ -1019,7 +1061,7 @@ pub fn c14(tier: Tier) -> Vec<Case> {
         Tier::Thorough => (3, 4),
     };
     // é: a multi-byte character right after a hooked match
-    let inputs = InputSpec::Strings { alphabet: vec!['b', 'c', ' ', 'é'], max_len: len };
+    let inputs = InputSpec::Strings { alphabet: vec!['b', 'c', ' ', 'é', 'â'], max_len: len };
     // rule kinds carrying checks / extern rules; `H` is the hooked rule
     let kinds = |ctxv: bool| -> Vec<(&'static str, Vec<Rule>)> {
         let c0 = if ctxv { "chkx0" } else { "chk0" };
@@ -1055,6 +1097,15 @@ pub fn c14(tier: Tier) -> Vec<Case> {
                         def: RuleDef::Char { parts: vec![CharPart::Range(LitChar::canon('b'), LitChar::canon('c'))], checks_before: 1 },
                     },
                 ],
+            ));
+            // a checked class that matches every character (â = U+00E2 shares its low seven bits with b)
+            v.push((
+                "char-any",
+                vec![Rule {
+                    name: "H".into(),
+                    directives: vec![chk("chkc0")],
+                    def: RuleDef::Char { parts: vec![CharPart::Ident("char".into())], checks_before: 1 },
+                }],
             ));
             v.push(("extern", vec![Rule::ext("H", "hrt::user::tok", None)]));
             v.push(("extern-typed", vec![Rule::ext("H", "hrt::user::tokt", Some("hrt::user::Tok"))]));
@@ -1443,6 +1494,19 @@ pub fn c20(tier: Tier) -> Vec<Case> {
         };
         let inputs: Vec<String> = vec!["m!".into(), "m".into(), format!("{}!", "m".repeat(7000)), format!("{}.", "m".repeat(5000)), format!("{}!", "m".repeat(4097)), format!("{}!", "m".repeat(4095))];
         b.add("pure/memo-long", g, InputSpec::List(inputs));
+    }
+    // a case-insensitive literal and inputs that are prefixes of one another: in the reused-buffer mode the bytes
+    // behind the end of the input are those of the previous, longer input
+    {
+        let g = Grammar {
+            rules: vec![Rule::normal(
+                "Root",
+                vec![Directive::Export, Directive::NoSkipWs],
+                choice(vec![seq(vec![ilit("bcx"), opt(lit("b"))]), seq(vec![lit("b"), opt(ilit("cb")), opt(lit("c"))])]),
+            )],
+        };
+        let inputs: Vec<String> = ["bcx", "bc", "b", "BCX", "bcxb", "bcb", "BC", "bC", ""].iter().map(|s| s.to_string()).collect();
+        b.add("pure/insensitive-literal", g, InputSpec::List(inputs));
     }
     // a grammar with a memoized rule whose cache hit shows in the reported error, and a rule with a check function
     // (a scheduling point also for a parse that runs through `parse_with_trace`)
